@@ -74,12 +74,13 @@ class H5:
         return self.attrs.get("/Info/Parameters", {})
 
 
-def run_inovesa(variant, opts, cwd, xdg, timeout=180, env=None, extra_args=(), config=None, inherit_sigint_ignored=False, stack_kib=None):
-    """Run the program; opts dict of long options. -c /dev/null unless config given.
+def run_inovesa(variant, opts, cwd, xdg, timeout=180, env=None, extra_args=(), config=None, inherit_sigint_ignored=False, stack_kib=None, stdout_to=None):
+    """Run the program (stdout_to: see core.run_cmd); opts dict of long options. -c /dev/null unless config given.
     stack_kib: soft limit of the main thread's stack (ulimit -s) the program is started with.
     inherit_sigint_ignored: start it the way a non-interactive shell starts a background job (SIGINT disposition 'ignore' inherited)."""
     exe = os.path.join(build.build(variant), "inovesa")
-    argv = [exe, "--config", config if config else "/dev/null"] + to_args(opts) + list(extra_args)
+    # config=False: no --config option at all (the program then looks for ./default.cfg, which may be absent)
+    argv = [exe] + ([] if config is False else ["--config", config if config else "/dev/null"]) + to_args(opts) + list(extra_args)
     if inherit_sigint_ignored:
         argv = ["/bin/sh", "-c", "trap '' INT; exec \"$0\" \"$@\""] + argv
     if stack_kib:
@@ -91,14 +92,48 @@ def run_inovesa(variant, opts, cwd, xdg, timeout=180, env=None, extra_args=(), c
     # uninitialised or freed heap memory then differs between runs that are compared bit for bit, and is garbage where an oracle looks at it
     e["MALLOC_PERTURB_"] = str(1 + core.rng_u64("perturb", cwd, repr(sorted(opts.items()))) % 254)
     if env:
-        e.update(env)
-    r = core.run_cmd(argv, cwd=cwd, env=e, timeout=timeout)
+        e.update({k: v for k, v in env.items() if v is not None and not k.startswith("_")})
+    unset = [k for k, v in (env or {}).items() if v is None]
+    if unset:
+        # a value of None means "not in the environment of the process" (run_cmd starts from os.environ, so it has to be removed explicitly)
+        argv = ["/usr/bin/env"] + ["-u" + k for k in unset] + argv
+    if env and env.get("_umask"):
+        argv = ["/bin/sh", "-c", "umask %s; exec \"$0\" \"$@\"" % env["_umask"]] + argv
+    r = core.run_cmd(argv, cwd=cwd, env=e, timeout=timeout, stdout_to=stdout_to)
     if r["hang"]:
         # a watchdog firing on a loaded machine is inconclusive: re-run once with twice the budget before calling it a hang
-        r = core.run_cmd(argv, cwd=cwd, env=e, timeout=2 * timeout)
+        r = core.run_cmd(argv, cwd=cwd, env=e, timeout=2 * timeout, stdout_to=stdout_to)
         r["retried_after_timeout"] = True
     r["argv"] = argv
     return r
+
+
+def envmix(r, p=0.5):
+    """A process environment that must not matter (DESIGN 14, eleventh round): with probability p returns a dict for run_inovesa(env=...) that
+    changes things the program is started with but that are not parameters of the simulation - HOME absent or somewhere odd (XDG_DATA_HOME, which
+    selects the FFT wisdom, is left alone), a locale name that does not exist on this machine / the C.utf8 locale, a time zone, a terminal type and
+    width, a restrictive umask, XDG_CONFIG_HOME.  The unchanged tree reads none of these (FSPath reads HOME only for a path that starts with '~').
+    Returns (env or None, label)."""
+    if not r.chance(p):
+        return None, "plain"
+    e, lab = {}, []
+    k = r.randint(0, 7)
+    if k in (0, 1):
+        e["HOME"] = None; lab.append("HOME unset")
+    elif k == 2:
+        e["HOME"] = "/nonexistent/home dir"; lab.append("HOME nonexistent")
+    if k in (1, 3, 4):
+        loc = r.choice(["de_DE.UTF-8", "fr_FR@euro", "C.utf8", "tr_TR.UTF-8"])
+        e[r.choice(["LC_ALL", "LANG", "LC_NUMERIC"])] = loc; lab.append("locale " + loc)
+    if k in (4, 5):
+        e["TZ"] = r.choice(["Pacific/Kiritimati", "America/St_Johns", ":/nonexistent", "UTC-13:45"]); lab.append("TZ")
+    if k in (5, 6):
+        e["TERM"] = r.choice(["dumb", "xterm-256color"]); e["COLUMNS"] = r.choice(["1", "20", "500"]); lab.append("TERM/COLUMNS")
+    if k in (6, 7):
+        e["_umask"] = r.choice(["077", "027"]); lab.append("umask")
+    if k == 7:
+        e["XDG_CONFIG_HOME"] = "/nonexistent/cfg"; e["USERPROFILE"] = "/nonexistent/profile"; lab.append("XDG_CONFIG_HOME")
+    return e, "+".join(lab)
 
 
 def program_outcome_key(r):
